@@ -48,7 +48,8 @@ def ill_formed_reasons(n, parent=None):
 
 def plants():
     W = T.Word
-    return [("word containing whitespace", lambda: W("two words")), ("fuzzy on a phrase", lambda: T.Fuzzy(T.Phrase('"a b"'), 1)),
+    return [("word containing whitespace", lambda: W("two words")), ("word with a leading blank", lambda: W(" foo")), ("word with a trailing blank", lambda: W("foo ")),
+            ("word with a leading tab", lambda: W("\tfoo")), ("word with a trailing line break", lambda: W("foo\n")), ("word that is one blank", lambda: W(" ")), ("fuzzy on a phrase", lambda: T.Fuzzy(T.Phrase('"a b"'), 1)),
             ("proximity on a word", lambda: T.Proximity(W("a"), 2)), ("negative fuzziness", lambda: T.Fuzzy(W("a"), -1)),
             ("invalid field name", lambda: T.SearchField("bad name", W("v"))), ("field name with a star in the middle", lambda: T.SearchField("foo*bar", W("v"))),
             ("operation as field expression", lambda: T.SearchField("f", T.AndOperation(W("a"), W("b")))),
@@ -142,14 +143,15 @@ def main():
     W = T.Word
     items += [("hand: group at the root", T.Group(W("a"))), ("hand: prefix alone", T.Not(W("a"))), ("hand: or of prohibits", T.OrOperation(T.Prohibit(W("a")), W("b"))),
               ("hand: deep", T.AndOperation(T.Plus(T.Boost(T.Group(T.OrOperation(T.SearchField("f", T.FieldGroup(T.UnknownOperation(W("a"), T.Not(W("b"))))), W("c"))), 2)), W("d"))),
-              ("hand: none item", T.NONE_ITEM), ("hand: term", T.Term("x")), ("hand: base group", T.BaseGroup(W("a"))), ("hand: fuzzy zero", T.Fuzzy(W("a"), 0)),
+              ("hand: none item", T.NONE_ITEM), ("hand: term", T.Term("x")), ("hand: base group", T.BaseGroup(W("a"))), ("hand: fuzzy zero", T.Fuzzy(W("a"), 0)), ("hand: fuzzy -inf", T.Fuzzy(W("a"), "-Infinity")),
+              ("hand: fuzzy huge", T.Fuzzy(W("a"), "-1e400")), ("hand: boost inf", T.Boost(W("a"), "Infinity")),
               ("hand: open ranges", T.AndOperation(T.From(W("1")), T.To(T.Phrase('"z"'), include=False))), ("hand: field with range", T.SearchField("f", T.Range(W("1"), W("2")))),
               ("hand: field with regex", T.SearchField("f_1", T.Regex("/a+/"))), ("hand: unicode field", T.SearchField("été", W("x")))]
     res = pmap(check, items)
     failures = [f for r in res for f in r[1]]
     rest, hit = classify(failures, p.get("known", []))
     emit({"ok": not rest, "evaluations": sum(r[0] for r in res), "distinct_nontrivial": len(items),
-          "rule": "accepted token sequences of <= %d tokens + 12 hand-built trees; each well-formed tree also with each of 11 ill-formed constructs planted at a "
+          "rule": "accepted token sequences of <= %d tokens + 12 hand-built trees; each well-formed tree also with each of 16 ill-formed constructs planted at a "
                   "position reachable through operations, groups, fields, boosts and prefixes; zeal 0 and 1; fresh and long-lived checker; distinct = trees" % p["max_tokens"],
           "bound": "token sequences <= %d" % p["max_tokens"], "samples": [{"query": "f:(a b) AND c", "planted": "word containing whitespace"}],
           "failures": rest[:40], "known": hit, "known_covered": len(failures) - len(rest)})
